@@ -12,7 +12,8 @@ from ..core import unfl
 LEVEL = "exploration"
 RULE = ("float32 unary: every non-NaN bit pattern (thorough) / every 2053rd pattern + neighbourhoods (+-4096 ulps) of 0, 1, 1.5, sqrt(largest), largest/2, "
         "largest, smallest normal (quick); hypot: random-bit, |x|=|y|, huge/tiny ratio and special-lattice pairs; float64: random bits + the same "
-        "neighbourhoods, judged by the mp oracle. distinct_nontrivial = distinct (function, dtype, binade of |x| (exponent), distance in ULP) tuples observed")
+        "neighbourhoods, judged by the mp oracle; float64 bulk sweeps (log-uniform 2^+-70, full range, threshold approaches t(1 +- 2^-j u)) with long double libm as tier 1 "
+        "and the oracle for doubtful points. distinct_nontrivial = distinct (function, dtype, binade of |x| (exponent), distance in ULP) tuples observed")
 ASSUME = ["numpy float64 arcsin/arccos/arcsinh/arccosh/hypot are within 1 ULP(float64) (tier 1); every doubtful case is re-judged by the mp oracle",
           "mpmath real functions converge with precision (Ziv: two precisions must agree away from rounding boundaries)"]
 REQUIRE = ["evaluations", "judged:float32", "judged:float64", "judged:hypot", "tier2:rejudged", "nan-domain:checked", "limits:checked"]
